@@ -762,10 +762,15 @@ func drawMinimize(t *simrt.Tape) *minInst {
 			if nt < 1 {
 				nt = 1
 			}
+			if t.Choose(simrt.KFault, 2) == 1 && nt >= 2 {
+				// a short list: the answer comes while the last rows are
+				// being handed out
+				in.rows = nt + 1 + t.Choose(simrt.KFault, 2)
+			}
 			if in.rows-nt >= 1 {
-				in.statusAt = in.rows - nt - t.Choose(simrt.KFault, 2)
-				if in.statusAt < 1 {
-					in.statusAt = 1
+				in.statusAt = in.rows - nt + 1 - t.Choose(simrt.KFault, 2)
+				if in.statusAt < 2 {
+					in.statusAt = 2 // (the first call is made before the run starts)
 				}
 			}
 		}
@@ -871,7 +876,7 @@ func (in *minInst) build() *minRun {
 	var ls optimize.Linesearcher
 	switch in.ls {
 	case 1:
-		ls = &optimize.Backtracking{DecreaseFactor: []float64{0, 0.8, 0.3, 0}[in.lsKnob], ContractionFactor: []float64{0, 0, 0.1, 0.9}[in.lsKnob]}
+		ls = &optimize.Backtracking{DecreaseFactor: []float64{0, 0.8, 0.3, 0}[in.lsKnob], ContractionFactor: []float64{0, 0, 0.1, 0.7}[in.lsKnob]} // (0.7: a search that shrinks to rounding level takes ~110 evaluations; with 0.9 it takes 350 and a run with 30 major iterations passes the runaway bound legitimately)
 	case 2:
 		ls = &optimize.Bisection{CurvatureFactor: []float64{0, 0.1, 0.5, 0.99}[in.lsKnob]}
 	case 3:
@@ -1694,7 +1699,9 @@ func checkC19(rc *RunCtx, in *minInst, r *minRun, nTasks int) *Violation {
 		// is asked once per finished evaluation. A terminal answer of
 		// Problem.Status at a call before that came first, and the first
 		// terminal condition is the one that names the run.
-		if in.method == mListSearch && in.hasStatus && in.statusAt > 0 && in.statusAt <= in.rows-nTasks && in.prime == 0 {
+		// (Problem.Status is also asked once before the run: when the method
+		// can first end itself, 1 + rows-(nTasks-1) answers have been given)
+		if in.method == mListSearch && in.hasStatus && in.statusAt > 0 && in.statusAt <= in.rows-nTasks+1 && in.prime == 0 {
 			return bad(fmt.Sprintf("Problem.Status ended the run at its call %d (of one call per evaluation, %d rows, %d tasks), before ListSearch could have handed out its last row; its answer was dropped", in.statusAt, in.rows, nTasks))
 		}
 	case optimize.Failure:
